@@ -61,6 +61,8 @@ type Client struct {
 	// InjectConflicts: a rejected status write is, arbitrarily, a plain error or an optimistic-locking
 	// Conflict (somebody else modified the object since it was read).
 	InjectConflicts bool
+	// InjectNotFound: a rejected Delete is, arbitrarily, a plain error or a NotFound answer.
+	InjectNotFound bool
 	// FaultOnly, when set, restricts InjectFaults to the writes it accepts (verb, kind, name);
 	// every other write succeeds.  Used to afford large batches: one symbolic failing position.
 	FaultOnly func(verb, kind, name, node string) bool
@@ -393,6 +395,11 @@ func (c *Client) Delete(ctx context.Context, obj client.Object, opts ...client.D
 	f := c.fault()
 	if f == 1 {
 		e.Failed = true
+		// InjectNotFound: the rejected delete may be answered NotFound (the object the caller listed a
+		// moment ago is reported gone) instead of a plain error
+		if c.InjectNotFound && nondet.Bool("api.notfound") {
+			return notFound(kindOf(obj), obj.GetName())
+		}
 		return ErrInjected
 	}
 	found := false
